@@ -536,8 +536,10 @@ def r7(ctx, cfg):
             cd = peel(a[2])
             d = fmt(cd)[:200]
             src = lambda x: contains(x, lambda y: y[0] == "call" and y[1] == W + "code_data" and is_param(y[2][1], "code_id"))
-            ok = _is_code_data_field(a[0]) and contains(a[1], lambda x: x[0] == "call" and x[1] == W + "next_code_id") and cd[0] == "agg" and \
-                all(src(v) and contains(v, lambda y, nm=nm: y[0] == "field" and y[2] == nm) for nm, v in cd[2])
+            # field by field, or the looked-up record cloned as a whole (`self.code_data(code_id)?.clone()`)
+            whole = just(a[2], lambda y: y[0] == "ok" and peel(y[1])[0] == "call" and peel(y[1])[1] == W + "code_data" and is_param(peel(y[1])[2][1], "code_id"))
+            ok = _is_code_data_field(a[0]) and contains(a[1], lambda x: x[0] == "call" and x[1] == W + "next_code_id") and \
+                (whole or (cd[0] == "agg" and all(src(v) and contains(v, lambda y, nm=nm: y[0] == "field" and y[2] == nm) for nm, v in cd[2])))
             conds = q.dominating_conditions(P, f, bid)
             ok = ok and any(c[0] == "variant_in" and c[2] in (("Continue",), ("Ok",)) and peel(c[1])[0] == "call" and peel(c[1])[1] == W + "code_data" for e, c in conds)
         ctx.ob(R, key, "copy-of-looked-up-entry-under-next-id", ok, "duplicate_code inserts %s" % d, fn=f, sample=d[:160])
